@@ -97,6 +97,12 @@ SS = Sch(STR)
 
 
 def alphabet(kind, tier):
+    # the operator route of a declaration: `receiver | operand` with an operand that is not a
+    # schema (rejected like schema.any(receiver, operand)); valid operands would change the kind
+    return _alphabet(kind, tier) + [("|", (v,)) for v in (5, None, "x", E, [SI])]
+
+
+def _alphabet(kind, tier):
     T = tier == "thorough"
     c = "__call__"
     if kind == "int":
@@ -169,7 +175,10 @@ FAMILY = {"__call__": "value", "min": "min", "max": "max", "precision": "precisi
 def step(s, method, args):
     """('schema', obj) | ('decl', msg) | ('exc', ExcName, msg) | ('other', repr)."""
     try:
-        r = getattr(s, method)(*realise(args))
+        if method == "|":
+            r = s | realise(args)[0]
+        else:
+            r = getattr(s, method)(*realise(args))
     except DeclarationError as e:
         return ("decl", str(e)[:100])
     except Exception as e:  # noqa: BLE001
